@@ -1,8 +1,8 @@
 """Form-independent view of a `for` loop: the iterator expression with hoisted lets resolved, its adaptor chain from the base
 outwards, and the element predicates of `.filter(..)` adaptors (which are path conditions of the body, exactly like an `if` at
 the top of the body)."""
-from .db import peel, atoms, walk
-from .origins import resolve_let
+from .db import peel, atoms, walk, is_call, callee, path_ends
+from .origins import resolve_let, for_loop_parts
 
 
 def chain(db, f, it):
@@ -25,3 +25,39 @@ def filter_atoms(call):
     while isinstance(body, dict) and body.get("k") == "Block" and not body.get("stmts") and "expr" in body:
         body = peel(body["expr"])
     return atoms(body, True)
+
+
+_TERMINALS = {"for_each": 0, "try_for_each": 0, "try_fold": 1, "fold": 1}
+
+
+def iterations(root):
+    """every construct under `root` that runs a body once per element of an iterator, in order: `for` loops and the closure forms
+    for_each / try_for_each / fold / try_fold.  Yields dicts: kind, it (the iterated expression), body, node, parents."""
+    for n, ps in walk(root):
+        if n.get("k") == "Match":
+            fl = for_loop_parts(n)
+            if fl:
+                yield {"kind": "for", "it": fl[0], "pat": fl[1], "body": fl[2], "node": n, "parents": ps}
+        elif n.get("k") == "MethodCall" and n.get("method") in _TERMINALS and len(n["args"]) > _TERMINALS[n["method"]]:
+            clo = peel(n["args"][_TERMINALS[n["method"]]])
+            if isinstance(clo, dict) and clo.get("k") == "Closure":
+                yield {"kind": n["method"], "it": n["recv"], "pat": clo.get("params"), "body": clo["body"], "node": n, "parents": ps, "closure": clo}
+
+
+def propagates_errors(itn, call, call_parents):
+    """the Result of `call` (inside the body of iteration `itn`) stops the iteration and leaves the enclosing function: `?` on the
+    call inside a `for` body, or a try_* closure whose value is the call (or `call?` re-wrapped) and whose own result is consumed by `?`"""
+    from .uses import consumer
+    kind = consumer(call, call_parents)[0]
+    if itn["kind"] == "for":
+        return kind == "try"
+    if itn["kind"] in ("try_for_each", "try_fold"):
+        return kind in ("try", "return") and consumer(itn["node"], itn["parents"])[0] == "try"
+    return False
+
+
+def body_parents(itn):
+    """parent chain to use when walking the body of an iteration (so that consumers / path conditions see the enclosing construct)"""
+    if itn["kind"] == "for":
+        return itn["parents"] + (itn["node"],)
+    return itn["parents"] + (itn["node"], itn["closure"])
